@@ -9,6 +9,7 @@ From Sakura.Model Require Import Base Cursor Length Event Song Token LoopMachine
 From Sakura.Spec Require Import MacroSpec LoopSpec.
 From Sakura.Gen Require Import VarRows DocMacros.
 From Sakura.Proofs Require Import LoopP ExtP.
+From Sakura.Proofs Require Import FollowP.
 Import ListNotations.
 Open Scope Z_scope.
 
@@ -548,7 +549,7 @@ Proof. cbn [rhythm_get]. destruct (x =? c); reflexivity. Qed.
 (* 4. executing a string variable / macro                                                             *)
 
 Lemma song_with_ls_same s : song_with_ls s (ls_of_song s) = s.
-Proof. destruct s; reflexivity. Qed.
+Proof. destruct s; unfold song_with_ls; cbn. rewrite map_follow_same. reflexivity. Qed.
 
 (* the text a TValue token stands for *)
 Definition call_text (args : option (list (option marg))) (body : list Z) : list Z :=
